@@ -316,4 +316,113 @@ example :
       | .ok s1, .ok s2 => s1.c.feed == s2.c.feed && s1.c.feed == [(S "x_t", .s (S "a&b"))]
       | _, _ => false) = true := by decide +kernel
 
+/-! ### attribute order -/
+
+theorem sfind_map_other (k k' v : Str) (hne : (k' == k) = false) : ∀ d : List (Str × Str),
+    ((d.map fun p => if (p.1 == k') = true then (k', v) else p).find? (·.1 == k)).map (·.2) = (d.find? (·.1 == k)).map (·.2) := by
+  intro d
+  induction d with
+  | nil => rfl
+  | cons p rest ih =>
+    simp only [List.map_cons, List.find?_cons]
+    by_cases hp : (p.1 == k') = true
+    · have hpk : p.1 = k' := by simpa using hp
+      have h2 : (p.1 == k) = false := by rw [hpk]; exact hne
+      simp only [hp, ↓reduceIte, hne, h2]
+      exact ih
+    · have hp' : (p.1 == k') = false := by simpa using hp
+      simp only [hp', Bool.false_eq_true, ↓reduceIte]
+      cases (p.1 == k) with
+      | true => rfl
+      | false => exact ih
+
+theorem sget_sset_other (d : List (Str × Str)) (k k' v : Str) (hne : (k' == k) = false) : sget (sset d k' v) k = sget d k := by
+  unfold sget sset
+  by_cases hany : d.any (·.1 == k') = true
+  · simp only [hany, ↓reduceIte]
+    exact sfind_map_other k k' v hne d
+  · simp only [hany, Bool.false_eq_true, ↓reduceIte, List.find?_append]
+    cases hf : d.find? (·.1 == k) with
+    | some x => simp
+    | none => simp [hne]
+
+/-- what a lookup in the attribute dict returns: the value of the LAST attribute with that name -/
+theorem sget_dictOf (attrs : List (Str × Str)) (k : Str) :
+    sget (dictOf attrs) k = ((attrs.reverse.find? (·.1 == k)).map (·.2)) := by
+  unfold dictOf
+  have gen : ∀ (l : List (Str × Str)) (d0 : List (Str × Str)),
+      sget (l.foldl (fun d kv => sset d kv.1 kv.2) d0) k = ((l.reverse.find? (·.1 == k)).map (·.2)).orElse fun _ => sget d0 k := by
+    intro l
+    induction l with
+    | nil => intro d0; simp
+    | cons a rest ih =>
+      intro d0
+      simp only [List.foldl_cons, List.reverse_cons, List.find?_append]
+      rw [ih]
+      cases hr : rest.reverse.find? (·.1 == k) with
+      | some x => simp
+      | none =>
+        simp only [Option.map_none, Option.orElse_none, Option.none_or, List.find?_cons, List.find?_nil]
+        by_cases ha : (a.1 == k) = true
+        · have : a.1 = k := by simpa using ha
+          simp only [ha, Option.map_some]
+          rw [this]; simp [sget_sset_same]
+        · have ha' : (a.1 == k) = false := by simpa using ha
+          simp only [ha']
+          simp [sget_sset_other _ _ _ _ ha']
+  have := gen attrs []
+  simp only [sget, List.find?_nil, Option.map_none] at this ⊢
+  simpa using this
+
+/-- **Attribute order is irrelevant to every lookup** (C10): if no two attributes of the element carry the same (normalised) name, the
+dict built from any permutation of them answers every `attrs_d.get(name)` the same. -/
+theorem attribute_order_irrelevant (attrs attrs' : List (Str × Str)) (hp : attrs.Perm attrs')
+    (hnd : (attrs.map (·.1)).Nodup) (k : Str) : sget (dictOf attrs') k = sget (dictOf attrs) k := by
+  rw [sget_dictOf, sget_dictOf]
+  -- with distinct names there is at most one attribute named k: find? over any ordering returns it
+  have key : ∀ (l : List (Str × Str)), (l.map (·.1)).Nodup → ∀ x ∈ l, (x.1 == k) = true → (l.find? (·.1 == k)) = some x := by
+    intro l
+    induction l with
+    | nil => intro _ x hx; cases hx
+    | cons a rest ih =>
+      intro hnd x hx hk
+      simp only [List.map_cons, List.nodup_cons] at hnd
+      simp only [List.find?_cons]
+      by_cases ha : (a.1 == k) = true
+      · simp only [ha]
+        rcases List.mem_cons.mp hx with rfl | hxr
+        · rfl
+        · exfalso
+          have : x.1 = a.1 := by rw [beq_iff_eq.mp hk, beq_iff_eq.mp ha]
+          exact hnd.1 (List.mem_map.mpr ⟨x, hxr, this⟩)
+      · have ha' : (a.1 == k) = false := by simpa using ha
+        simp only [ha']
+        rcases List.mem_cons.mp hx with rfl | hxr
+        · rw [hk] at ha'; cases ha'
+        · exact ih hnd.2 x hxr hk
+  have hnd' : (attrs'.map (·.1)).Nodup := (hp.map (·.1)).nodup_iff.mp hnd
+  have hndr : (attrs.reverse.map (·.1)).Nodup := by rw [List.map_reverse]; exact (List.reverse_perm _).nodup_iff.mpr hnd
+  have hndr' : (attrs'.reverse.map (·.1)).Nodup := by rw [List.map_reverse]; exact (List.reverse_perm _).nodup_iff.mpr hnd'
+  cases hf : attrs.reverse.find? (·.1 == k) with
+  | some x =>
+    have hx := List.mem_of_find?_eq_some hf
+    have hk := List.find?_some hf
+    have hx' : x ∈ attrs'.reverse := by
+      rw [List.mem_reverse] at hx ⊢; exact hp.mem_iff.mp hx
+    rw [key _ hndr' x hx' hk]
+  | none =>
+    have : attrs'.reverse.find? (·.1 == k) = none := by
+      apply List.find?_eq_none.mpr
+      intro x hx
+      have hx0 : x ∈ attrs.reverse := by rw [List.mem_reverse] at hx ⊢; exact hp.mem_iff.mpr hx
+      exact (List.find?_eq_none.mp hf) x hx0
+    rw [this]
+
+/-- non-vacuity: `<link rel="alternate" href="x" type="text/html"/>` in two attribute orders -/
+example : sget (dictOf [(S "href", S "x"), (S "rel", S "alternate"), (S "type", S "text/html")]) (S "href") =
+          sget (dictOf [(S "type", S "text/html"), (S "href", S "x"), (S "rel", S "alternate")]) (S "href") := by decide +kernel
+
+/-- …and the hypothesis matters: with the same name twice the LAST one wins, so order shows (the property's "contrived" corner, F20) -/
+example : sget (dictOf [(S "href", S "a"), (S "href", S "b")]) (S "href") ≠ sget (dictOf [(S "href", S "b"), (S "href", S "a")]) (S "href") := by decide +kernel
+
 end FeedVerif.Mixin
